@@ -57,7 +57,13 @@ def random_exec(rng, store, via, base, length):
                 big += 1
                 if big > 2:
                     de["chunks"] = 51
-            lines.append({"ev": "insert" if r < 0.7 else "update", "dir": d, "name": n, "e": de})
+            op = {"ev": "insert" if r < 0.7 else "update", "dir": d, "name": n, "e": de}
+            if op["ev"] == "update" and rng.random() < 0.6:
+                # read - modify - write: the entry object returned by the store is edited in place and written back
+                op["rmw"] = True
+                if rng.random() < 0.7:
+                    de["fidobj"] = False          # new chunk ids given as text, over whatever the store left in the chunk objects
+            lines.append(op)
     return lines
 
 
@@ -107,6 +113,8 @@ def run(ctx):
                                   {"ev": "insert", "dir": ["d"], "name": "a", "e": d},
                                   {"ev": "insert", "dir": ["d"], "name": "b", "e": d2},
                                   {"ev": "update", "dir": ["d"], "name": "a", "e": d2},
+                                  {"ev": "update", "dir": ["d"], "name": "a", "e": dict(descriptor(rng, chunks=ch), fidobj=False), "rmw": True},
+                                  {"ev": "update", "dir": ["d"], "name": "b", "e": dict(d, fidobj=False), "rmw": True},
                                   {"ev": "delete", "dir": ["d"], "name": "b"}])
         with open(script, "w") as f:
             for ex in execs:
